@@ -837,6 +837,146 @@ pub fn run(eng: &mut Engine) {
         hdr_strategy,
         check_hdr,
     );
+    eng.generated(
+        PartCfg::new(
+            "sender",
+            "real sessions (any sender configuration: profile, TSI/TOI widths and initial values, FDT start id - half of them within 3 of the 2^20 wrap -, cenc, in-band SCT; 1-2 small objects; 1-3 publications): every datagram returned by Sender::read decodes with the reference, flute parses the same values back, TSI / TOI / codepoint / EXT_FDT version and consecutive instance ids / sender current time are what the configuration implies; non-trivial = the instance id wraps, a TOI >= 2^16, the RFC 3926 profile or a TSI >= 2^16; distinct by case",
+            tier.pick(20_000, 600_000),
+        ),
+        sender_case_strategy,
+        check_sender,
+    );
+}
+
+// ------------------------------------------------------------------------------------------
+// packets as Sender::read returns them: every datagram decodes with the reference to the values the
+// configuration implies and flute parses the same values back
+
+#[derive(Debug, Clone, Serialize, Deserialize)]
+pub struct SenderCase {
+    pub sender: crate::spec::SenderSpec,
+    pub objs: Vec<crate::spec::ObjSpec>,
+    /// explicit publications before draining (FullFDT) and republications afterwards
+    pub publishes: u8,
+}
+
+pub fn check_sender(c: &SenderCase) -> CaseResult {
+    use crate::drive::*;
+    use crate::props::common::*;
+    let mut info = CaseInfo::new();
+    if !c.sender.oti.is_constructible() || c.objs.iter().any(|o| !effective_oti(&c.sender, o).is_constructible()) {
+        return Ok(CaseInfo::excluded("domain: OTI not constructible"));
+    }
+    if !session_can_carry_fdt(&c.sender, &c.objs) {
+        return Ok(CaseInfo::excluded("domain: FDT does not fit the session OTI"));
+    }
+    let known = crate::engine::load_known();
+    let open = |k: &str| known.iter().any(|x| x.key == k && x.status == "open");
+    if open("raptor-small-block")
+        && (c.sender.oti.scheme == Scheme::Raptor
+            || c.objs.iter().any(|o| {
+                let eff = effective_oti(&c.sender, o);
+                eff.scheme == Scheme::Raptor && (o.cenc != 0 || sig_raptor_small_block(eff, o.content.size as u64))
+            }))
+    {
+        return Ok(CaseInfo::excluded("raptor-small-block"));
+    }
+    let mut drv = SenderDriver::new(&c.sender)?;
+    let mut tois: std::collections::BTreeMap<u128, Scheme> = Default::default();
+    for o in &c.objs {
+        match drv.add(o) {
+            Ok((toi, _)) => {
+                tois.insert(toi, effective_oti(&c.sender, o).scheme);
+            }
+            Err(_) => return Ok(CaseInfo::excluded("domain: object refused")),
+        }
+    }
+    let mut publications = 0u32;
+    for k in 0..c.publishes.max(1) {
+        if c.sender.full_fdt {
+            if drv.publish().is_err() {
+                return Ok(CaseInfo::excluded("domain: FDT does not fit the session OTI"));
+            }
+        }
+        if k == 0 {
+            drv.drain(60_000)?;
+        } else {
+            let mut g = 0;
+            while drv.read().is_some() && g < 2000 {
+                g += 1;
+            }
+        }
+        drv.advance(std::time::Duration::from_millis(1500));
+    }
+    let version = if c.sender.rfc3926 { 1u8 } else { 2u8 };
+    let mut ids: Vec<u32> = vec![];
+    let mut wide = false;
+    for r in &drv.log {
+        let (bytes, dec) = match &r.kind {
+            RecKind::Pkt { bytes, dec } => (bytes, dec),
+            _ => continue,
+        };
+        let d = dec.as_ref().map_err(|e| format!("a packet returned by Sender::read is not decodable per RFC: {} ({:02x?})", e, &bytes[..bytes.len().min(48)]))?;
+        // flute parses its own packet to the same values
+        run_bytes(bytes)?;
+        eq("TSI", "reference", d.lct.tsi, c.sender.tsi)?;
+        if d.lct.toi == 0 {
+            let (v, id) = d.fdt.ok_or("a TOI 0 packet returned by Sender::read has no EXT_FDT")?;
+            if v != version {
+                return Err(format!("EXT_FDT carries version {} (instance id {}), the sender profile is {}", v, id, if c.sender.rfc3926 { "RFC 3926 (1)" } else { "RFC 6726 (2)" }));
+            }
+            if ids.last() != Some(&id) && !ids.contains(&id) {
+                ids.push(id);
+            }
+            eq("codepoint of FDT packets", "reference", d.lct.cp, c.sender.oti.scheme.fec_id())?;
+        } else {
+            let scheme = tois.get(&d.lct.toi).ok_or(format!("a packet carries TOI {} which no added object has (objects: {:?})", d.lct.toi, tois.keys().collect::<Vec<_>>()))?;
+            eq("codepoint of object packets", "reference", d.lct.cp, scheme.fec_id())?;
+            if d.fdt.is_some() {
+                return Err(format!("an object packet (TOI {}) carries EXT_FDT", d.lct.toi));
+            }
+            wide |= d.lct.toi >= 1 << 16;
+        }
+        if let Some(t) = &d.time {
+            if c.sender.inband_sct {
+                let hi = t.sct_hi.ok_or("EXT_TIME without SCT-High although in-band SCT is configured")?;
+                let ns = ntp::to_unix_nanos(hi, t.sct_low.unwrap_or(0)).ok_or("SCT before 1970")?;
+                let want_us = r.t.duration_since(std::time::UNIX_EPOCH).map(|x| x.as_micros()).unwrap_or(0) as u64;
+                sct_check("sender current time of a packet returned by Sender::read", ns, want_us)?;
+            }
+        }
+        publications = publications.max(ids.len() as u32);
+    }
+    // instance ids: consecutive modulo 2^20 from the configured start
+    for (j, id) in ids.iter().enumerate() {
+        let want = ((c.sender.fdt_start_id as u64 + j as u64) % (1 << 20)) as u32;
+        if *id != want {
+            return Err(format!("FDT instance #{} carries instance id {}, expected {} (fdt_start_id {})", j, id, want, c.sender.fdt_start_id));
+        }
+    }
+    let wraps = ids.len() >= 2 && ids.windows(2).any(|w| w[1] < w[0]);
+    info.nt(wraps || wide || c.sender.rfc3926 || c.sender.tsi >= 1 << 16);
+    info.label_if(wraps, "instance id wraps");
+    info.label_if(wide, "TOI >= 2^16");
+    info.label_if(c.sender.rfc3926, "RFC 3926 profile");
+    info.label(format!("instances={}", ids.len().min(4)));
+    Ok(info)
+}
+
+fn sender_case_strategy() -> BoxedStrategy<SenderCase> {
+    let oo = crate::gen::ObjOpts { max_size: 600, rich_meta: false, allow_stream: false, ..Default::default() };
+    (crate::gen::session_strategy(crate::gen::SenderOpts::default(), oo, 2), 1u8..4, 0u8..6)
+        .prop_map(|((mut sender, objs), publishes, near)| {
+            // instance ids around the 20-bit wrap in half of the cases
+            sender.fdt_start_id = match near {
+                0 => (1 << 20) - 1,
+                1 => (1 << 20) - 2,
+                2 => (1 << 20) - 3,
+                _ => sender.fdt_start_id,
+            };
+            SenderCase { sender, objs, publishes }
+        })
+        .boxed()
 }
 
 pub fn replay(part: &str, case: &Value) -> Option<CaseResult> {
@@ -844,6 +984,7 @@ pub fn replay(part: &str, case: &Value) -> Option<CaseResult> {
         "classes" | "build" => Some(check_build(&serde_json::from_value(case.clone()).ok()?)),
         "foreign" => Some(check_ref(&serde_json::from_value(case.clone()).ok()?)),
         "header" => Some(check_hdr(&serde_json::from_value(case.clone()).ok()?)),
+        "sender" => Some(check_sender(&serde_json::from_value(case.clone()).ok()?)),
         // a libFuzzer artifact: the datagram as hex
         "fuzz-bytes" => {
             let d = crate::engine::unhex(case.get("hex")?.as_str()?)?;
